@@ -90,6 +90,16 @@ def run_property(prop, tier, only_units=None):
                                 tier=tier, prop=prop)
             else:
                 raise SystemExit(f"unknown engine {u['engine']}")
+            # obligations of this unit that belong to another property are not this property's business
+            excl = set(u.get('exclude_obligations', []))
+            if excl and r['status'] == 'violation':
+                kept = [f for f in r['failures'] if f.get('obligation') not in excl]
+                r['excluded_failures'] = [f.get('obligation') for f in r['failures'] if f.get('obligation') in excl]
+                r['failures'] = kept
+                if not kept:
+                    r['status'] = 'holds'
+                    r['reason'] = 'only obligations of other properties failed: ' + ', '.join(r['excluded_failures'])
+                r['obligations'] -= len(set(r['excluded_failures']))
             r['bounded'] = bool(u.get('bounded'))
             r['role'] = u.get('role', '')
             # keep the generated file for inspection when something is wrong
@@ -180,6 +190,11 @@ def main():
             print(f"UNDECIDED unit={r['unit']}: {r['reason'][:600]}")
         exit_code = 2
 
+    # known findings are reported separately: `obligations` counts the obligations claimed to hold
+    for r in results:
+        nk = len(set(f.get('obligation') for (r2, f, k) in known_hits if r2 is r))
+        r['obligations'] -= nk
+        r['known_finding_obligations'] = nk
     write_evidence(prop, a.tier, seed, results, wall, len(seenv), known_hits)
     tot_o = sum(r['obligations'] for r in results)
     tot_d = sum(r['discharged'] for r in results)
